@@ -385,13 +385,36 @@ def rule_pairing(repo):
     # (d) final merge
     merge = [s for s in f.body if isinstance(s, ast.For) and norm(s.iter) == 'impl_constraints']
     ok = False
-    if len(merge) == 1:
+    # the published set: `top._dag.all_constraints = <copy of U_U>`, possibly bound to local aliases in the same statement
+    # (`top._dag.all_constraints = ac = {*U_U}`) or by `ac = top._dag.all_constraints` / the reverse afterwards
+    init = [s for s in f.body if isinstance(s, ast.Assign) and any(norm(t) == 'top._dag.all_constraints' for t in s.targets)]
+    aliases = {'top._dag.all_constraints'}
+    if len(init) == 1:
+        aliases |= {norm(t) for t in init[0].targets if isinstance(t, ast.Name)}
+        if isinstance(init[0].value, ast.Name):
+            # ac = {*U_U} ; top._dag.all_constraints = ac
+            src = [s for s in f.body if isinstance(s, ast.Assign) and len(s.targets) == 1 and norm(s.targets[0]) == init[0].value.id]
+            if len(src) == 1 and f.body.index(src[0]) < f.body.index(init[0]):
+                aliases.add(init[0].value.id)
+                init_value = src[0].value
+            else:
+                init_value = init[0].value
+        else:
+            init_value = init[0].value
+        for s_ in f.body:
+            if isinstance(s_, ast.Assign) and len(s_.targets) == 1 and isinstance(s_.targets[0], ast.Name) and norm(s_.value) in aliases \
+                    and f.body.index(s_) > f.body.index(init[0]):
+                aliases.add(s_.targets[0].id)
+    if len(merge) == 1 and len(init) == 1:
         x, y = [norm(e) for e in merge[0].target.elts]
         b = merge[0].body
-        ok = len(b) == 1 and isinstance(b[0], ast.If) and norm(b[0].test) == f"({y}, {x}) not in U_U" and not b[0].orelse and \
-            norm(b[0].body[0]) == f"top._dag.all_constraints.add(({x}, {y}))"
-    init = [s for s in f.body if isinstance(s, ast.Assign) and norm(s.targets[0]) == 'top._dag.all_constraints']
-    ok = ok and len(init) == 1 and norm(init[0].value) in ('{*U_U}', 'set(U_U)', 'U_U.copy()') and f.body.index(init[0]) < f.body.index(merge[0])
+        ok = len(b) == 1 and isinstance(b[0], ast.If) and norm(b[0].test) in (f"({y}, {x}) not in U_U", f"not ({y}, {x}) in U_U") and not b[0].orelse and \
+            len(b[0].body) == 1 and any(norm(b[0].body[0]) == f"{a}.add(({x}, {y}))" for a in aliases)
+        ok = ok and norm(init_value) in ('{*U_U}', 'set(U_U)', 'U_U.copy()') and f.body.index(init[0]) < f.body.index(merge[0])
+        # an alias must not be re-bound between the publication and the merge loop
+        rebound = [s_ for s_ in f.body[f.body.index(init[0]) + 1:f.body.index(merge[0])]
+                   if isinstance(s_, ast.Assign) and any(norm(t) in aliases for t in s_.targets) and norm(s_.value) not in aliases]
+        ok = ok and not rebound
     if ok:
         # the snapshot of the explicit constraints must be taken AFTER the RD(x)/WR(x)-vs-U constraints were expanded into U_U
         expand = [i for i, s_ in enumerate(f.body) if any(isinstance(c, ast.Call) and norm(c.func) == 'U_U.add' for c in ast.walk(s_))]
@@ -1095,6 +1118,8 @@ def _m(name, file, old, new, rule=None, count=1):
 
 
 MUTANTS = [
+    _m('pairing-merge-into-detached-copy', GENDAG, "    top._dag.all_constraints = { *U_U }\n    for (x, y) in impl_constraints:\n      if (y, x) not in U_U: # no conflicting expl\n        top._dag.all_constraints.add( (x, y) )",
+       "    top._dag.all_constraints = { *U_U }\n    merged = { *U_U }\n    for (x, y) in impl_constraints:\n      if (y, x) not in U_U: # no conflicting expl\n        merged.add( (x, y) )", 'R-C02-pairing'),
     _m('explicit-snapshot-too-early', GENDAG, "    U_U, RD_U, WR_U, U_M         = top.get_all_explicit_constraints()\n", "    U_U, RD_U, WR_U, U_M         = top.get_all_explicit_constraints()\n    top._dag.all_constraints = { *U_U }\n", 'R-C02-pairing'),
     _m('D20-loopvar-resolved-as-global', ASTH, "          if   x in self.locals:  pass\n          elif x in self.globals: n = (False, x)", "          if   x in self.globals: n = (False, x)", 'R-C02-index-scope', count=2),
     _m('check-schedule-render-unprotected', SIMPLE, "    try:\n      dump_dag( top, V_leftovers, E_leftovers )\n    except Exception:\n      pass\n", "    dump_dag( top, V_leftovers, E_leftovers )\n", 'R-kahn'),
@@ -1167,6 +1192,10 @@ EQUIV = [
     _m('kahn-ready-eq-zero', SIMPLE, "        if not InD[v]:\n          Q.append( v )", "        if InD[v] == 0:\n          Q.append( v )"),
     _m('kahn-filter-order', SIMPLE, "      if u in V and v in V:\n        InD[v] += 1", "      if v in V and u in V:\n        InD[v] += 1"),
     _m('greenlet-remap-order', GREEN, "      if x in greenlet_upblks:\n        x = blk_greenlet_mapping[ x ]\n      if y in greenlet_upblks:\n        y = blk_greenlet_mapping[ y ]", "      if y in greenlet_upblks:\n        y = blk_greenlet_mapping[ y ]\n      if x in greenlet_upblks:\n        x = blk_greenlet_mapping[ x ]"),
+    _m('pairing-published-set-alias', GENDAG, "    top._dag.all_constraints = { *U_U }\n    for (x, y) in impl_constraints:\n      if (y, x) not in U_U: # no conflicting expl\n        top._dag.all_constraints.add( (x, y) )",
+       "    top._dag.all_constraints = all_constraints = { *U_U }\n    for (x, y) in impl_constraints:\n      if (y, x) not in U_U: # no conflicting expl\n        all_constraints.add( (x, y) )"),
+    _m('pairing-published-set-local-first', GENDAG, "    top._dag.all_constraints = { *U_U }\n    for (x, y) in impl_constraints:\n      if (y, x) not in U_U: # no conflicting expl\n        top._dag.all_constraints.add( (x, y) )",
+       "    merged = { *U_U }\n    top._dag.all_constraints = merged\n    for (x, y) in impl_constraints:\n      if (y, x) not in U_U: # no conflicting expl\n        merged.add( (x, y) )"),
     _m('visitor-kw-loop-var', ASTH, "    for x in node.keywords:\n      self.visit( x.value )\n", "    for kw in node.keywords:\n      self.visit( kw.value )\n"),
 ]
 
